@@ -782,11 +782,13 @@ func f2(c *Ctx, base ssa.Value, f func(ssa.Value) nodeRef) nodeRef { return f(ba
 // pass their own node.
 type helperBinding struct {
 	clauses []*Clause
+	calls   []*ssa.Call // the call site of each clause (same order)
 	ok      bool
 }
 
 func (c *Ctx) helperClauses(h *ssa.Function) helperBinding {
 	var out []*Clause
+	var sites []*ssa.Call
 	okAll := true
 	n := 0
 	for _, fn := range append([]*ssa.Function{c.A.Exec}, c.A.Helpers...) {
@@ -816,10 +818,97 @@ func (c *Ctx) helperClauses(h *ssa.Function) helperBinding {
 					}
 				}
 				out = append(out, cl)
+				sites = append(sites, call)
 			}
 		}
 	}
-	return helperBinding{clauses: out, ok: okAll && n > 0}
+	return helperBinding{clauses: out, calls: sites, ok: okAll && n > 0}
+}
+
+// reachableUnderArgs: the blocks of h that can run when it is called at this
+// site, pruning the branches decided by arguments that are constants there: a
+// bool parameter passed true/false, a pointer parameter passed nil or the
+// address of something.
+func reachableUnderArgs(h *ssa.Function, call *ssa.Call) map[*ssa.BasicBlock]bool {
+	boolOf := map[*ssa.Parameter]bool{}
+	nilOf := map[*ssa.Parameter]bool{}
+	for i, p := range h.Params {
+		if i >= len(call.Call.Args) {
+			break
+		}
+		a := call.Call.Args[i]
+		if bv, ok := constBool(a); ok {
+			boolOf[p] = bv
+			continue
+		}
+		if _, isPtr := p.Type().Underlying().(*types.Pointer); isPtr {
+			switch a.(type) {
+			case *ssa.Alloc, *ssa.FieldAddr, *ssa.IndexAddr, *ssa.Global:
+				nilOf[p] = false
+			default:
+				if isNilConst(a) {
+					nilOf[p] = true
+				}
+			}
+		}
+	}
+	decide := func(b *ssa.BasicBlock) int { // successor taken, or -1
+		ifi := blockIf(b)
+		if ifi == nil {
+			return -1
+		}
+		cond := ifi.Cond
+		neg := false
+		if u, ok := cond.(*ssa.UnOp); ok && u.Op == token.NOT {
+			cond, neg = u.X, true
+		}
+		val, known := false, false
+		switch cv := cond.(type) {
+		case *ssa.Parameter:
+			val, known = boolOf[cv], false
+			if _, ok := boolOf[cv]; ok {
+				known = true
+			}
+		case *ssa.BinOp:
+			if (cv.Op == token.EQL || cv.Op == token.NEQ) && isNilConst(cv.Y) {
+				if p, ok := cv.X.(*ssa.Parameter); ok {
+					if isNil, ok := nilOf[p]; ok {
+						known = true
+						val = isNil == (cv.Op == token.EQL)
+					}
+				}
+			}
+		}
+		if !known {
+			return -1
+		}
+		if neg {
+			val = !val
+		}
+		if val {
+			return 0
+		}
+		return 1
+	}
+	seen := map[*ssa.BasicBlock]bool{}
+	var walk func(b *ssa.BasicBlock)
+	walk = func(b *ssa.BasicBlock) {
+		if seen[b] {
+			return
+		}
+		seen[b] = true
+		if k := decide(b); k >= 0 {
+			walk(b.Succs[k])
+			return
+		}
+		for _, sb := range b.Succs {
+			walk(sb)
+		}
+	}
+	if len(h.Blocks) > 0 {
+		walk(h.Blocks[0])
+	}
+	return seen
 }
 
 func init() {
@@ -885,11 +974,47 @@ func ruleShape(c *Ctx) *RuleResult {
 		}
 		hb := c.helperClauses(h)
 		hh := h
+		// a helper that only hands its nodes on (to the evaluator) reads no
+		// payload and no child by position: nothing to bind
+		readsNode := false
+		for _, b := range h.Blocks {
+			for _, in := range b.Instrs {
+				if v, isV := in.(ssa.Value); isV {
+					if base, fld, ok := fieldRead(v); ok && (fld == fValue || fld == fChildren) && (c.isASTNode(base.Type()) || c.isASTNodePtr(base.Type())) {
+						readsNode = true
+					}
+				}
+				if fa, isFA := in.(*ssa.FieldAddr); isFA && (fa.Field == fValue || fa.Field == fChildren) && c.isASTNodePtr(fa.X.Type()) {
+					readsNode = true
+				}
+			}
+		}
+		if !readsNode {
+			continue
+		}
 		if !hb.ok {
 			r.undecided("helper-binding|"+fname(hh), c.pos(hh.Pos()), fname(hh), "helper takes a node but is not called only from evaluator clauses with the clause's own node")
 			continue
 		}
-		ctxs = append(ctxs, fnCtx{hh, func(ssa.Instruction) []*Clause { return hb.clauses }})
+		reach := make([]map[*ssa.BasicBlock]bool, len(hb.calls))
+		for i, call := range hb.calls {
+			reach[i] = reachableUnderArgs(hh, call)
+		}
+		ctxs = append(ctxs, fnCtx{hh, func(in ssa.Instruction) []*Clause {
+			// the clauses from whose call site this instruction can run
+			var out []*Clause
+			seen := map[*Clause]bool{}
+			for i, cl := range hb.clauses {
+				if in.Block() != nil && !reach[i][in.Block()] {
+					continue
+				}
+				if !seen[cl] {
+					seen[cl] = true
+					out = append(out, cl)
+				}
+			}
+			return out
+		}})
 	}
 	// sort adapters (Less) evaluate a.node: an expref body — any parsed node; no payload access.
 
